@@ -69,8 +69,9 @@ Definition spec_holds04 (c : c04case) : N :=
   | HStream segs delivered buflen parked =>
     let stream := List.concat segs in
     let '(frames, rest) := ref_frames (S (length stream)) stream in
-    (* only streams made of well-formed frames are in the property's domain *)
-    if negb (forallb (fun fr => match frame_fields fr with Some (h, _) => e37_hdr_ok h | None => false end) frames) then 1 else
+    (* the well-formed frames of the stream are the messages; a frame that is not an HSMS message (too short for a header, a field outside
+       its E37 range) is nobody's message - and does not hold back the frames behind it *)
+    let frames := filter (fun fr => match frame_fields fr with Some (h, _) => e37_hdr_ok h | None => false end) frames in
     if negb (length frames =? length delivered)%nat then 35 else
     if negb (forallb (fun p => match frame_fields (fst p) with
                                 | Some (h, d) => e37_eqb h (to_e37 (fst (snd p))) && bytes_eqb d (snd (snd p)) && hhdr_in_range (fst (snd p))
